@@ -18,7 +18,9 @@ CONSTANTS Fns, Uds,        \* handler functions and user pointers
           Masks,           \* event masks used in registrations (subsets of Types, {} = remove)
           MaxTop,          \* top-level calls (registrations and raises)
           MaxNested,       \* registration calls made from inside callbacks, per delivery
-          FixUp            \* TRUE: removal repairs the delivery cursor (as coded)
+          FixUp,           \* TRUE: removal repairs the delivery cursor (as coded)
+          MaxProbe,        \* page transmissions that run across registration calls (0: none)
+          ResetOnActivate  \* TRUE (as coded): enabling Teletext acquisition discards the pages in progress
 
 None == 0
 
@@ -28,14 +30,18 @@ VARIABLES hl,        \* list of live record ids, in list order
           emask,     \* vbi->event_mask: services enabled
           dl,        \* delivery: [on, t, nxt, incb, snap, called, removed, nested]
           log,       \* callbacks of the current/last delivery: <<id, fn, ud>>
-          ntop, freed, lastAct
-vars == <<hl, rec, nextid, emask, dl, log, ntop, freed, lastAct>>
+          ntop, freed, lastAct,
+          tx,        \* a Teletext page in transmission across API calls: "none" | "open" (the decoder has its header) | "lost"
+          txok,      \* ghost: Teletext was requested at the header and ever since
+          nprobe
+vars == <<hl, rec, nextid, emask, dl, log, ntop, freed, lastAct, tx, txok, nprobe>>
 
 Idle == [on |-> FALSE, t |-> "none", nxt |-> None, incb |-> None, snap |-> {}, called |-> <<>>,
          removed |-> {}, nested |-> 0]
 
 Init == /\ hl = <<>> /\ rec = <<>> /\ nextid = 1 /\ emask = {} /\ dl = Idle /\ log = <<>>
         /\ ntop = 0 /\ freed = {} /\ lastAct = [a |-> "init"]
+        /\ tx = "none" /\ txok = FALSE /\ nprobe = 0
 
 Range(s) == {s[i] : i \in 1..Len(s)}
 Pos(id) == CHOOSE i \in 1..Len(hl) : hl[i] = id
@@ -79,18 +85,25 @@ ListOp(match(_), fn, ud, mask, nest) ==
 RegisterOp(fn, ud, mask, nest) == ListOp(LAMBDA r : r.fn = fn /\ r.ud = ud, fn, ud, mask, nest)
 AddOp(fn, ud, mask, nest)      == ListOp(LAMBDA r : r.fn = fn, fn, ud, mask, nest)
 
+\* effect of a changed service mask on the page in transmission (vbi_event_enable): newly requested Teletext resets the
+\* Teletext decoder (vbi_teletext_channel_switched), the page in progress is discarded; while Teletext is not requested
+\* its packets are dropped
+TxEffect == /\ tx' = IF ResetOnActivate /\ "ttx" \notin emask /\ "ttx" \in emask' /\ tx = "open" THEN "lost" ELSE tx
+            /\ txok' = (txok /\ "ttx" \in emask') /\ UNCHANGED nprobe
+TxSame == UNCHANGED <<tx, txok, nprobe>>
+
 \* top level
-Register(fn, ud, mask) == /\ ~dl.on /\ ntop < MaxTop /\ RegisterOp(fn, ud, mask, 0)
+Register(fn, ud, mask) == /\ ~dl.on /\ ntop < MaxTop /\ RegisterOp(fn, ud, mask, 0) /\ TxEffect
                           /\ ntop' = ntop + 1 /\ UNCHANGED log
                           /\ lastAct' = [a |-> "Register", fn |-> fn, ud |-> ud, mask |-> mask, in |-> FALSE]
-Add(fn, ud, mask)      == /\ ~dl.on /\ ntop < MaxTop /\ AddOp(fn, ud, mask, 0)
+Add(fn, ud, mask)      == /\ ~dl.on /\ ntop < MaxTop /\ AddOp(fn, ud, mask, 0) /\ TxEffect
                           /\ ntop' = ntop + 1 /\ UNCHANGED log
                           /\ lastAct' = [a |-> "Add", fn |-> fn, ud |-> ud, mask |-> mask, in |-> FALSE]
 \* from inside the running callback
-NRegister(fn, ud, mask) == /\ dl.on /\ dl.incb # None /\ dl.nested < MaxNested /\ RegisterOp(fn, ud, mask, 1)
+NRegister(fn, ud, mask) == /\ dl.on /\ dl.incb # None /\ dl.nested < MaxNested /\ RegisterOp(fn, ud, mask, 1) /\ TxEffect
                            /\ UNCHANGED <<ntop, log>>
                            /\ lastAct' = [a |-> "Register", fn |-> fn, ud |-> ud, mask |-> mask, in |-> TRUE]
-NAdd(fn, ud, mask)      == /\ dl.on /\ dl.incb # None /\ dl.nested < MaxNested /\ AddOp(fn, ud, mask, 1)
+NAdd(fn, ud, mask)      == /\ dl.on /\ dl.incb # None /\ dl.nested < MaxNested /\ AddOp(fn, ud, mask, 1) /\ TxEffect
                            /\ UNCHANGED <<ntop, log>>
                            /\ lastAct' = [a |-> "Add", fn |-> fn, ud |-> ud, mask |-> mask, in |-> TRUE]
 
@@ -101,7 +114,7 @@ Raise(t) ==
   /\ dl' = [on |-> TRUE, t |-> t, nxt |-> IF hl = <<>> THEN None ELSE hl[1], incb |-> None,
             snap |-> {i \in Range(hl) : t \in rec[i].mask}, called |-> <<>>, removed |-> {}, nested |-> 0]
   /\ log' = <<>> /\ ntop' = ntop + 1
-  /\ UNCHANGED <<hl, rec, nextid, emask, freed>>
+  /\ UNCHANGED <<hl, rec, nextid, emask, freed>> /\ TxSame
   /\ lastAct' = [a |-> "Raise", t |-> t]
 
 \* one loop iteration: eh = cursor; cursor = eh->next; call if the mask matches
@@ -114,24 +127,43 @@ Step ==
                             !.called = IF hit THEN Append(@, eh) ELSE @]
         /\ log' = IF hit THEN Append(log, <<rec[eh].fn, rec[eh].ud>>) ELSE log
         /\ lastAct' = IF hit THEN [a |-> "Call", fn |-> rec[eh].fn, ud |-> rec[eh].ud] ELSE [a |-> "Skip"]
-  /\ UNCHANGED <<hl, rec, nextid, emask, ntop, freed>>
+  /\ UNCHANGED <<hl, rec, nextid, emask, ntop, freed>> /\ TxSame
 
 Return ==
   /\ dl.on /\ dl.incb # None
   /\ dl' = [dl EXCEPT !.incb = None]
-  /\ UNCHANGED <<hl, rec, nextid, emask, log, ntop, freed>>
+  /\ UNCHANGED <<hl, rec, nextid, emask, log, ntop, freed>> /\ TxSame
   /\ lastAct' = [a |-> "Return"]
 
 EndDelivery ==
   /\ dl.on /\ dl.incb = None /\ dl.nxt = None
   /\ dl' = [dl EXCEPT !.on = FALSE]
-  /\ UNCHANGED <<hl, rec, nextid, emask, log, ntop, freed>>
+  /\ UNCHANGED <<hl, rec, nextid, emask, log, ntop, freed>> /\ TxSame
   /\ lastAct' = [a |-> "End"]
+
+-----------------------------------------------------------------------------
+(* a Teletext page whose transmission runs across API calls: header and first rows, ... , last rows and the terminating
+   header.  It is stored and announced (one TTX_PAGE delivery to the handlers requesting it, no nested calls) iff the
+   decoder got its header and still has it, and Teletext is requested when it ends. *)
+TxHeader ==
+  /\ ~dl.on /\ tx = "none" /\ nprobe < MaxProbe
+  /\ tx' = (IF "ttx" \in emask THEN "open" ELSE "lost") /\ txok' = ("ttx" \in emask) /\ nprobe' = nprobe + 1
+  /\ UNCHANGED <<hl, rec, nextid, emask, dl, log, ntop, freed>>
+  /\ lastAct' = [a |-> "TxHeader"]
+TxEnd ==
+  /\ ~dl.on /\ tx # "none"
+  /\ LET stored == tx = "open" /\ "ttx" \in emask
+         ids == SelectSeq(hl, LAMBDA i : "ttx" \in rec[i].mask)
+     IN /\ log' = IF stored THEN [k \in 1..Len(ids) |-> <<rec[ids[k]].fn, rec[ids[k]].ud>>] ELSE <<>>
+        /\ lastAct' = [a |-> "TxEnd", stored |-> stored]
+  /\ tx' = "none" /\ txok' = FALSE
+  /\ UNCHANGED <<hl, rec, nextid, emask, dl, ntop, freed, nprobe>>
 
 Next ==
   \/ \E f \in Fns, u \in Uds, m \in Masks : Register(f, u, m) \/ Add(f, u, m) \/ NRegister(f, u, m) \/ NAdd(f, u, m)
   \/ \E t \in Types : Raise(t)
   \/ Step \/ Return \/ EndDelivery
+  \/ TxHeader \/ TxEnd
 
 Spec == Init /\ [][Next]_vars
 FairSpec == Spec /\ WF_vars(Step \/ Return \/ EndDelivery)
@@ -150,6 +182,8 @@ AllCalled == (~dl.on /\ dl.t # "none") => \A i \in dl.snap \ dl.removed : \E k \
 OnlyRegistered == \A k \in 1..Len(dl.called) : dl.called[k] \in dl.snap \/ dl.called[k] \in Range(hl) \/ dl.called[k] \in freed
 \* services enabled = union of the masks of the registered handlers (Teletext acquired iff "ttx" in emask)
 Acquire == emask = UnionMask(rec, hl)
+\* ... exactly while requested: a page is stored iff Teletext was requested from its header to its end without a gap
+AcquireExact == [][lastAct'.a = "TxEnd" => (lastAct'.stored <=> txok)]_vars
 ListOK == /\ Range(hl) = DOMAIN rec /\ Increasing(hl) /\ freed \cap Range(hl) = {}
           /\ \A i, j \in Range(hl) : (rec[i].fn = rec[j].fn /\ rec[i].ud = rec[j].ud) => i = j
           /\ \A i \in Range(hl) : rec[i].mask # {}
